@@ -47,6 +47,11 @@ CLAIMED = {
    text="Seeded cancellation points: one handler of a request (global, group, route middleware, main or fallback handler, any position, chains of 1-62 and a dedicated over-the-limit profile) calls Abort/AbortThen/AbortWithStatus before, after or without Next while the other handlers call Next once, twice or never; oracle: nothing starts after the abort, suspended handlers resume innermost first, IsAborted false before / true after / false throughout where nobody aborts, AbortWithStatus determines the committed status unless already committed, and requests that do not abort equal their solo twin. Thin in the same sense as C04. Sampling, not enumeration.",
    note="Chains longer than 63 handlers (possible because global middleware is not counted by the registration-time limit) are a recorded known finding, matched by the signature chain>63 only.",
    ref="DESIGN.md §4.3"),
+ "C16": dict(
+   technique="deterministic simulation (thin claim): the map-iteration order inside Resource is behind a verif seam and drawn from the seed; all 256 generated controller types x seeded registration orders x method/path probes (sequential and as concurrent clients) against the documented REST table",
+   text="Run index r uses action subset r mod 128 and Uses() iff r/128 is odd, so every 256 consecutive runs cover all controller types, each with a seeded permutation of the seven actions' registration order, base path (/, /api/, nested group), options and 7 methods x 9 relative paths of probes; oracle: the documented table (registered routes and names, which action serves which probe with which id, which Uses() middleware ran, everything else 404/405, non-pointer / non-struct controllers rejected); a failure that disappears in sorted order is classed order-dependent. Thin: nothing but the registration order (and, in the concurrent profile, the interleaving of probes) is schedule-dependent. The 256 types are covered completely; the 5040 orders are sampled.",
+   note="HEAD and OPTIONS probes are left out (their fallback behaviour is C06). Base paths not ending in / are left out (Resource(\"/api\", c) yields /apiproduct; the statement does not say whether that is intended).",
+   ref="DESIGN.md §4.9"),
 }
 
 NA = {
@@ -62,7 +67,7 @@ NA = {
  "C19": "pure encoders over values and headers.",
  "C20": "pure functions of headers, method and wrapper list.",
 }
-PENDING = {k: "check not yet built at this commit (claimed in DESIGN.md §4; under construction)" for k in ["C16"]}
+PENDING = {}
 
 def main():
     checks = []
@@ -82,7 +87,7 @@ def main():
     na = [{"property_id": k, "reason": v} for k, v in sorted({**NA, **PENDING}.items()) if k not in CLAIMED]
     m = {
         "version": 1,
-        "setup_cmd": "./check --build",
+        "setup_cmd": "./check --build && ./check --selftest -n 8 -procs 9",
         "hooks": {
             "guard": "verif (Go build tag)",
             "enable": "go build -tags verif (the harness module ruxsim replaces github.com/gookit/rux with /repo)",
